@@ -51,11 +51,11 @@ def pm_of(cfg):
     return dict(point_masses=[600.0], engine_thrusts=[5.0e3], point_mass_locations=[[1.1, -2.3, -0.35]])
 CELLS = [("aitken", "direct"), ("nlbgs", "direct"), ("newton", "direct"), ("newton", "lbgs"), ("newton", "krylov_plain"), ("aitken_f07", "direct"), ("nlbgs_apply", "direct"), ("default", "default")]  # last: the library's own solver objects
 POINTS = [
-    {"alpha": 4.0, "v": 100.0, "load_factor": 1.3, "wing.twist_cp": [2.0, 3.0, 1.0]},
+    {"alpha": 4.0, "v": 100.0, "load_factor": 1.3, "wing.twist_cp": [2.0, 3.0, 1.0], "wing.taper": 1.0},
     # P1 differs from P0 in the flight condition ONLY (same geometry and structure): a value cached on the structure alone
     # would survive the transition P0 -> P1
-    {"alpha": 1.0, "v": 130.0, "load_factor": 2.5, "wing.twist_cp": [2.0, 3.0, 1.0]},
-    {"alpha": 6.0, "v": 80.0, "load_factor": 1.0, "wing.twist_cp": [3.0, 0.5, 2.0]},
+    {"alpha": 1.0, "v": 130.0, "load_factor": 2.5, "wing.twist_cp": [2.0, 3.0, 1.0], "wing.taper": 1.0},
+    {"alpha": 6.0, "v": 80.0, "load_factor": 1.0, "wing.twist_cp": [3.0, 0.5, 2.0], "wing.taper": 0.7},
 ]
 
 
@@ -93,7 +93,7 @@ def surface(cfg, fam, E_scale=1.0):
     c = CONFIGS[cfg]
     ny = 3 if c["sym"] else 5
     m = gen.make_mesh("twdi", c.get("nx", 2), ny, c.get("side", "left") if c["sym"] else "full", fam, asym=not c["sym"], span=10.0, chord=1.6)
-    kw = dict(struct_weight_relief=c["relief"], with_viscous=True, twist_cp=np.array([2.0, 3.0, 1.0]))
+    kw = dict(struct_weight_relief=c["relief"], with_viscous=True, twist_cp=np.array([2.0, 3.0, 1.0]), taper=1.0)
     if c.get("pm"):
         kw["n_point_masses"] = 1
     s = builders.struct_surface("wing", m, c["sym"], c["model"], **kw)
